@@ -294,6 +294,57 @@ def prebuilt_history(args):
             'states': 0, 'transitions': len(hist), 'traces': 1}
 
 
+def engine_object_history(hist):
+    """The caller hands dump_to_sql an Engine object (here: an in-memory SQLite database, which lives exactly as long as the
+    engine's connection) instead of a URL: every dump of the history uses that same engine."""
+    import sqlalchemy
+    cfg = {'pk': False, 'batch_size': 1000, 'bloom': True, 'cols': []}
+    label = 'one in-memory Engine object shared by the dumps, history %s' % ' ; '.join('%s%s' % (m, BATCHES[b]) for m, b in hist)
+    viol, table = [], None
+    engine = sqlalchemy.create_engine('sqlite://')
+    try:
+        for mode, bi in hist:
+            rows = [mkrow(k, v, []) for k, v in BATCHES[bi]]
+            st = mkstate([('r', [('k', 'string'), ('v', 'string')], rows)])
+            tbl = {'resource-name': 'r', 'mode': mode}
+            if mode == 'update':
+                tbl['update_keys'] = ['k']
+            exp = model_apply(table, mode, rows, False)
+            try:
+                out = core.materialise(core.from_state(st), core.dataflows.dump_to_sql({'t': tbl}, engine=engine, updated_column='_upd'))
+            except Exception as e:
+                viol.append(('engine-object-raises/%s' % mode, '%s: raises %s: %s' % (label, core.exc_sig(e), str(e)[:100]), {'engine_object': hist}))
+                break
+            table, flags = exp
+            try:
+                with engine.connect() as c:
+                    actual = [dict(zip(('k', 'v'), r)) for r in c.execute(sqlalchemy.text('select k, v from t'))]
+            except Exception as e:
+                actual = 'unreadable (%s)' % type(e).__name__
+            if actual == 'unreadable' or canon(actual if isinstance(actual, list) else None) != canon([{'k': r['k'], 'v': r['v']} for r in table]):
+                viol.append(('engine-object-table/%s' % mode, '%s: after %s the table holds %s, mode prescribes %s' %
+                             (label, mode, actual, table), {'engine_object': hist}))
+                break
+            if [r.get('_upd') for r in out.rows[0]] != flags:
+                viol.append(('engine-object-flags/%s' % mode, '%s: updated flags %r, truth %r' % (label, [r.get('_upd') for r in out.rows[0]], flags),
+                             {'engine_object': hist}))
+                break
+    finally:
+        engine.dispose()
+    return {'n': 1, 'key': h(['engine-object', hist]), 'outcome': 'engine-object-ok' if not viol else 'engine-object-violated', 'viol': viol[:1],
+            'states': 0, 'transitions': len(hist), 'traces': 1}
+
+
+def engine_object_cases(tier):
+    import itertools as it
+    ops = [(m, b) for m in MODES for b in (1, 3, 5)]
+    out = []
+    for n in (2, 3) if tier == 'thorough' else (2,):
+        for hist in it.product(ops, repeat=n):
+            out.append([list(x) for x in hist])
+    return out
+
+
 def prebuilt_cases(tier):
     out = []
     import itertools as it
@@ -339,6 +390,8 @@ def run(run):
         run.absorb(res)
     for res in run.map(prebuilt_history, prebuilt_cases(run.tier), chunksize=4, limit=600):
         run.absorb(res)
+    for res in run.map(engine_object_history, engine_object_cases(run.tier), chunksize=4, limit=600):
+        run.absorb(res)
     run.rule = ('per configuration (update keys explicit / from primaryKey x batch_size 1,2,1000 x bloom filter on/off x '
                 'scalar/+array/+object columns): BFS over dump histories up to depth %d with state merging on the table '
                 'content; from every distinct table state every (mode, batch) op is executed once; ops = 3 modes x 7 '
@@ -350,6 +403,8 @@ def run(run):
 
 
 def replay(w):
+    if 'engine_object' in w:
+        return engine_object_history(w['engine_object'])['viol']
     if 'prebuilt' in w:
         return prebuilt_history((w['cfg'], w['prebuilt']))['viol']
     r = explore({'cfg': w['cfg'], 'depth': len(w['hist'])})
